@@ -25,10 +25,12 @@ pub struct BuiltinProp { pub id: &'static str, pub aspect: BAspect }
 pub struct Scn {
     pub goals: Vec<Goal>,
     pub vars: Vec<String>,
+    /// some list went through the recursive `copy/2` (clauses are added by `program`)
+    pub uses_copy: bool,
 }
 
 impl Scn {
-    pub fn new() -> Self { Scn { goals: vec![], vars: vec![] } }
+    pub fn new() -> Self { Scn { goals: vec![], vars: vec![], uses_copy: false } }
     pub fn fresh(&mut self) -> String {
         let n = format!("$V{}", self.vars.len() + 1);
         self.vars.push(n.clone());
@@ -48,6 +50,15 @@ impl Scn {
         }
         Term::Var(cur)
     }
+    /// The list as a recursive rule builds it: `copy(list, $V)` leaves $V bound to a chain of one-element lists whose
+    /// tail variables all carry the same *name* (`$T2`) with different ids - what user programs that construct lists
+    /// element by element hand to the list built-ins.
+    pub fn through_copy(&mut self, list: Term) -> Term {
+        self.uses_copy = true;
+        let v = self.fresh();
+        self.goals.push(Goal::Call("copy".into(), vec![list, Term::Var(v.clone())]));
+        Term::Var(v)
+    }
     /// literal, or a variable bound to it (directly or through a chain)
     pub fn present(&mut self, s: &mut dyn Src, value: Term) -> (Term, bool) {
         match weighted(s, &[3, 2, 2]) {
@@ -61,6 +72,12 @@ impl Scn {
         let qargs: Vec<Term> = (0..self.vars.len()).map(|i| Term::Var(format!("$Q{}", i + 1))).collect();
         let body = if self.goals.len() == 1 { self.goals.into_iter().next().unwrap() } else { Goal::And(self.goals) };
         let mut clauses = extra;
+        if self.uses_copy {
+            // copy([], []).  copy([$H | $T], [$H | $T2]) :- copy($T, $T2).
+            clauses.push(Clause { name: "copy".into(), args: vec![Term::List(vec![], None), Term::List(vec![], None)], body: None });
+            clauses.push(Clause { name: "copy".into(), args: vec![Term::List(vec![Term::var("$H")], Some(Box::new(Term::var("$T")))), Term::List(vec![Term::var("$H")], Some(Box::new(Term::var("$T2"))))],
+                                  body: Some(Goal::Call("copy".into(), vec![Term::var("$T"), Term::var("$T2")])) });
+        }
         clauses.push(Clause { name: "t".into(), args, body: Some(body) });
         Program { clauses, qname: "t".into(), qargs }
     }
@@ -100,8 +117,25 @@ fn fail(id: &str, kind: &str, msg: String, case: String) -> CaseResult {
     CaseResult::Fail(Failure { kind: kind.to_string(), signature: format!("{}:{}", id, kind), message: msg, case })
 }
 
+thread_local! {
+    /// when set, scenario programs are handed over instead of being run (used to build the Miri corpus of C24)
+    static SINK: std::cell::RefCell<Option<Vec<Program>>> = std::cell::RefCell::new(None);
+}
+
+/// The scenario program(s) that `aspect`'s generator decodes from `src`, without running them.
+pub fn scenario_programs(aspect: BAspect, src: &mut dyn Src) -> Vec<Program> {
+    SINK.with(|k| *k.borrow_mut() = Some(vec![]));
+    let prop = BuiltinProp { id: "C24", aspect };
+    let mut rep = Report::new();
+    rep.frozen = true;
+    let _ = prop.check(src, &mut rep);
+    SINK.with(|k| k.borrow_mut().take()).unwrap_or_default()
+}
+
 /// Runs the scenario program through engine (API or text) and reference.
 fn run(id: &str, p: &Program, style: Option<render::Style>) -> Result<crate::props::solver::Compared, CaseResult> {
+    let captured = SINK.with(|k| { let mut g = k.borrow_mut(); if let Some(v) = g.as_mut() { v.push(p.clone()); true } else { false } });
+    if captured { return Err(CaseResult::Discard("captured".into())); }
     match style {
         None => compare_answers_src(id, p, None, 1),
         Some(st) => {
@@ -209,7 +243,7 @@ impl BuiltinProp {
         let f = gen_fun(s, &mut sc);
         // evaluate F with the reference to be able to build "equal value" partners
         let fval: Option<Term> = {
-            let mut probe = Scn { goals: sc.goals.clone(), vars: sc.vars.clone() };
+            let mut probe = Scn { goals: sc.goals.clone(), vars: sc.vars.clone(), uses_copy: sc.uses_copy };
             let r = probe.fresh();
             probe.goals.push(Goal::Unify(Term::Var(r), f.clone()));
             let pp = probe.program(vec![]);
@@ -238,7 +272,7 @@ impl BuiltinProp {
         rep.class(&format!("partner:{}", ["unbound-var", "var=value", "var=other", "equal-const", "other-const", "atom", "list", "complex", "equal-function", "random-function"][pk as usize]));
         let mut results = vec![];
         for fun_left in [true, false] {
-            let mut sc2 = Scn { goals: sc.goals.clone(), vars: sc.vars.clone() };
+            let mut sc2 = Scn { goals: sc.goals.clone(), vars: sc.vars.clone(), uses_copy: sc.uses_copy };
             sc2.goals.push(if fun_left { Goal::Unify(f.clone(), partner.clone()) } else { Goal::Unify(partner.clone(), f.clone()) });
             let p = sc2.program(vec![]);
             match run(self.id, &p, None) {
@@ -457,7 +491,9 @@ impl BuiltinProp {
             let l = s.draw(2);
             Some(Box::new(sc.bind(s, inner, l)))
         } else { None };
-        Term::List(es, tail)
+        let l = Term::List(es, tail);
+        if depth == 0 && chance(s, 1, 5) { flags.0 = true; return sc.through_copy(l); }
+        l
     }
 
     // -------------------------------------------------------------- C16
